@@ -549,8 +549,12 @@ func (c *compiler) compile(tok *token) []instruction {
 			t := c.toType(arg.Tokens[0])
 			types = append(types, t)
 		}
-		for _, arg := range tok.Tokens[funcArguments].Tokens {
-			c.Locals.Index(arg.Text)
+		for i, arg := range tok.Tokens[funcArguments].Tokens {
+			name := arg.Text
+			if name == "_" {
+				name = fmt.Sprintf("_#%d", i) // every blank parameter has a slot of its own
+			}
+			c.Locals.Index(name)
 		}
 		if arguments > 0 && tok.Tokens[funcArguments].Tokens[arguments-1].Tokens[0].Text == "..." {
 			arguments = -arguments
